@@ -27,6 +27,23 @@ type charCaseSpec struct {
 	note string
 }
 
+// formatRange: the values of an integer format (uint64 as far as an int holds them).
+func formatRange(format string) (lo, hi int64, ok bool) {
+	switch format {
+	case characteristic.FormatUInt8:
+		return 0, math.MaxUint8, true
+	case characteristic.FormatUInt16:
+		return 0, math.MaxUint16, true
+	case characteristic.FormatUInt32:
+		return 0, math.MaxUint32, true
+	case characteristic.FormatInt32:
+		return math.MinInt32, math.MaxInt32, true
+	case characteristic.FormatUInt64:
+		return 0, math.MaxInt64, true
+	}
+	return 0, 0, false
+}
+
 // c12Oracles: the property itself, evaluated on the real object after one step.
 func c12Oracles(c *Ctx, prop string, spec *charCaseSpec, stepIdx int, o *stepObs, input interface{}) {
 	cc := spec.cc
@@ -75,6 +92,16 @@ func c12Oracles(c *Ctx, prop string, spec *charCaseSpec, stepIdx int, o *stepObs
 		}
 		if mx, ok := cc.C.MaxValue.(int); ok && t > mx {
 			c.Violate(prop+": stored int above declared maximum", spec.id, input, fmt.Sprintf("<= %v (%s)", mx, at), fmt.Sprint(t))
+		}
+		// the type the format declares: uint8 is 0..255 &c. (as far as the int of the platform can hold it)
+		// (hypothesis `boundsInFormat` of value_within_format: a declared bound outside the range of the format leaves no
+		// value that satisfies both, and the declared bounds win)
+		within := func(b interface{}, lo, hi int64) bool {
+			i, isInt := b.(int)
+			return !isInt || (int64(i) >= lo && int64(i) <= hi)
+		}
+		if lo, hi, ok := formatRange(cc.C.Format); ok && within(cc.C.MinValue, lo, hi) && within(cc.C.MaxValue, lo, hi) && (int64(t) < lo || int64(t) > hi) {
+			c.Violate(fmt.Sprintf("%s: stored value of a %s characteristic is outside the range of that format", prop, cc.C.Format), spec.id, input, fmt.Sprintf("within [%d, %d] (%s)", lo, hi, at), fmt.Sprint(t))
 		}
 	}
 	gi := map[string]int{"bool": 0, "int": 1, "float64": 2, "string": 3}[kind]
